@@ -133,7 +133,9 @@ func (w *World) translate(fn *ssa.Function, c *Contract) (vc *VC, err error) {
 			}
 			t.assumeCl(s, true)
 		}
-		vc.Items = append(vc.Items, Item{Kind: itOblig, Text: "true", Name: "vacuity/requires", Expect: "sat", Src: "preconditions are satisfiable"})
+		if withCover {
+			vc.Items = append(vc.Items, Item{Kind: itOblig, Text: "true", Name: "vacuity/requires", Expect: "sat", Src: "preconditions are satisfiable"})
+		}
 		// dry evaluation of ensures to register the heaps they mention
 		t.entry = t.cur.clone()
 		for i, en := range c.Ensures {
@@ -661,6 +663,12 @@ func (t *Tr) loopHeader(li *loopInfo) {
 
 func (t *Tr) loopBack(li *loopInfo, from *ssa.BasicBlock) {
 	h := li.header
+	// several back edges (continue statements): obligations of the 2nd, 3rd ... get a suffix
+	sfx := ""
+	if li.nBack > 0 {
+		sfx = fmt.Sprintf("@back%d", li.nBack)
+	}
+	li.nBack++
 	hasAuto := false
 	for _, in := range h.Instrs {
 		if phi, ok := in.(*ssa.Phi); ok && phi.Comment == "rangeindex" {
@@ -700,13 +708,13 @@ func (t *Tr) loopBack(li *loopInfo, from *ssa.BasicBlock) {
 	}
 	for phi, v := range vals {
 		if phi.Comment == "rangeindex" {
-			t.check(fmt.Sprintf("loop%d/auto-rangeindex/preserve", li.ord), fmt.Sprintf("(>= %s (- 1))", v.S), "range index stays >= -1", pos)
+			t.check(fmt.Sprintf("loop%d/auto-rangeindex/preserve%s", li.ord, sfx), fmt.Sprintf("(>= %s (- 1))", v.S), "range index stays >= -1", pos)
 		}
 	}
 	if li.hasFrame {
 		if allowed, ok := t.frameAllowed(); ok {
 			if f := t.frameFormula(t.cur, allowed, li.frameOnly); f != "true" {
-				t.check(fmt.Sprintf("loop%d/auto-frame", li.ord), f, "heaps outside the modifies clause are unchanged after the iteration", pos)
+				t.check(fmt.Sprintf("loop%d/auto-frame%s", li.ord, sfx), f, "heaps outside the modifies clause are unchanged after the iteration", pos)
 			}
 		}
 	}
@@ -722,14 +730,14 @@ func (t *Tr) loopBack(li *loopInfo, from *ssa.BasicBlock) {
 		if err != nil {
 			efail("%s:%d: loop %d invariant#%d: %v", inv.File, inv.Line, li.ord, k, err)
 		}
-		t.checkCl(fmt.Sprintf("loop%d/preserve#%d", li.ord, k), s, "invariant "+inv.Src+" is preserved", pos)
+		t.checkCl(fmt.Sprintf("loop%d/preserve#%d%s", li.ord, k, sfx), s, "invariant "+inv.Src+" is preserved", pos)
 	}
 	if li.lc.Decreases != nil {
 		v, err := env.evalAny(li.lc.Decreases.E)
 		if err != nil {
 			efail("decreases: %v", err)
 		}
-		t.check(fmt.Sprintf("loop%d/decreases", li.ord), fmt.Sprintf("(and (<= 0 %s) (< %s %s))", li.decName, v.T.S, li.decName), "decreases "+li.lc.Decreases.Src, pos)
+		t.check(fmt.Sprintf("loop%d/decreases%s", li.ord, sfx), fmt.Sprintf("(and (<= 0 %s) (< %s %s))", li.decName, v.T.S, li.decName), "decreases "+li.lc.Decreases.Src, pos)
 	}
 	for phi, v := range saved {
 		t.vals[phi] = v
